@@ -132,12 +132,20 @@ def val(ds):
 
 
 HEX = '0123456789ABCDEFabcdef'
+# digits each textual form actually spells, with the (small) ranges the solver enumerates them over
+USED = {
+    'index': {'d0': 9, 'd1': 9}, 'range': {'d0': 8, 'e0': 1, 'e1': 9}, 'count': {'d0': 9, 'd1': 9}, 'offset': {'d0': 8, 'e0': 1, 'e1': 2, 'd2': 3},
+    'write': {'d0': 8, 'e0': 1, 'e1': 2, 'd2': 3}, 'write_cast': {'d0': 3, 'd1': 1, 'e0': 1, 'e1': 2, 'd2': 3},
+    'numeric': {'h0': 21, 'h1': 1, 'd0': 1, 'd1': 1, 'e0': 1, 'd2': 1}, 'numeric_json': {'d0': 1, 'd1': 1, 'e0': 1, 'e1': 1, 'd2': 1},
+    'write_frag_offset': {'d0': 4, 'd1': 2, 'e0': 1, 'e1': 2},
+}
 
 
 def do_text(form, d0, d1, d2, e0, e1, h0, h1):
     # the digits are solver variables but each path works on CONCRETE text (csv.reader / int() are C code): solver-enumerated
-    d0, d1, d2, e0, e1 = concretize(d0, 10), concretize(d1, 10), concretize(d2, 10), concretize(e0, 10), concretize(e1, 10)
-    h0, h1 = concretize(h0, 22), concretize(h1, 22)
+    used = USED[form]
+    d0, d1, d2, e0, e1 = [concretize(x, 10) if n in used else 1 for n, x in (('d0', d0), ('d1', d1), ('d2', d2), ('e0', e0), ('e1', e1))]
+    h0, h1 = [concretize(x, 22) if n in used else 10 for n, x in (('h0', h0), ('h1', h1))]
     A, Bv, Cv = val([d0, d1]), val([e0, e1]), d2
     fragment = False
     if form == 'index':
@@ -180,7 +188,7 @@ def do_text(form, d0, d1, d2, e0, e1, h0, h1):
 
 for form in ('index', 'range', 'count', 'offset', 'write', 'write_cast', 'numeric', 'numeric_json', 'write_frag_offset'):
     define(globals(), 'C12', 'text_%s' % form, ['d0', 'd1', 'd2', 'e0', 'e1', 'h0', 'h1'], "return do_text(%r, d0, d1, d2, e0, e1, h0, h1)" % form,
-           ['0 <= d0 <= 8 and 0 <= d1 <= 9 and 0 <= d2 <= 3 and 0 <= e0 <= 2 and 0 <= e1 <= 9 and 0 <= h0 <= 21 and 14 <= h1 <= 17'],
+           [" and ".join('0 <= %s <= %d' % (n, USED[form].get(n, 0)) for n in ('d0', 'd1', 'd2', 'e0', 'e1', 'h0', 'h1'))],
            tier='quick' if form in ('range', 'write', 'numeric', 'offset') else 'thorough', timeout=3000, path_timeout=60,
            drives=['cpppo.server.enip.client.parse_operations', 'cpppo.server.enip.device.parse_path_elements', 'cpppo.server.enip.device.parse_path_component',
                    'cpppo.server.enip.device.parse_int', 'cpppo.server.enip.client.CIP_TYPES validators'],
